@@ -66,7 +66,7 @@ Definition rs_just (v : view) (r T C : N) : Prop :=
    (exists p ttl m secs, In (ECtsReply r T p (StLocked ttl m true secs)) (v_cts v))) \/
   (exists p ttl m secs, In (ECtsReply r T p (StLocked ttl m true secs)) (v_cts v) /\ m <= C /\
      forall k, In k secs ->
-       exists ks l m', In (ECslReply r T ks (CslLocks l)) (v_csl v) /\ In (k, m') l /\ m' <= C).
+       exists ks l m', In (ECslReply r T ks (CslLocks l)) (v_csl v) /\ In (k, m') l /\ m' <= C /\ m' <> 0).
 
 Definition vstep (v : view) (e : event) (v' : view) : Prop :=
   match e with
@@ -111,7 +111,8 @@ Definition vstep (v : view) (e : event) (v' : view) : Prop :=
   | EPrSend _ _ _ _ => v' = vsent v e
   | EPrDeliver r T f ks x => v' = vdlv v (EPrReply r T f ks x)
   | ECtsSend r T p caller cur rbine fo rp =>
-      (cur = maxts \/ rbine = true -> expire_ok v r T) /\ v' = vsent v e
+      (cur = maxts \/ rbine = true -> expire_ok v r T) /\
+      (fo = true -> exists ks l k, In (ECslReply r T ks (CslLocks l)) (v_csl v) /\ In (k, 0) l) /\ v' = vsent v e
   | ECtsDeliver r T p st =>
       exists c', dlv_same (vgetc v T) c' /\
         (v' = vdlv v (ECtsReply r T p st) \/ v' = vcl (vdlv v (ECtsReply r T p st)) T c')
